@@ -74,6 +74,38 @@ def _init_worker(impl):
     stage.stage(impl)
 
 
+class Hang(BaseException):
+    """raised inside a worker when one call into the code under test did not come back within its deadline
+    (BaseException: genshi's own `except Exception` clauses must not swallow it)"""
+
+
+class deadline(object):
+    """`with deadline(seconds): call_real_code()` -- raises Hang in the calling (main) thread of the process when the
+    block runs longer than `seconds` of wall clock. Used by properties that claim termination (C06, C07): a change
+    that makes the code loop forever must end as a VIOLATION with the input, not as a check that never returns.
+    The limit is generous (a case normally takes milliseconds) so that a loaded machine raises no false alarm."""
+    def __init__(self, seconds):
+        self.seconds = seconds
+
+    def _fire(self, *a):
+        raise Hang('no result after %s s' % self.seconds)
+
+    def __enter__(self):
+        import signal, threading
+        self.on = threading.current_thread() is threading.main_thread() and hasattr(signal, 'setitimer')
+        if self.on:
+            self.old = signal.signal(signal.SIGALRM, self._fire)
+            signal.setitimer(signal.ITIMER_REAL, self.seconds)
+        return self
+
+    def __exit__(self, *a):
+        if self.on:
+            import signal
+            signal.setitimer(signal.ITIMER_REAL, 0)
+            signal.signal(signal.SIGALRM, self.old)
+        return False
+
+
 def _call(args):
     modname, fname, arg = args
     mod = importlib.import_module(modname)
